@@ -8,7 +8,8 @@ _T = ["push_state_ok", "push_chunk_layout", "pull_push", "rekey_state_ok", "sync
       "pull_accept_mac", "macInput_injective", "advance_eq", "counter_wrap_rekeys"]
 THEOREMS = vcore.theorems_in("SodiumModel/Properties/C09.lean", _T, "Sodium.C09")
 IMPORTS = ["SodiumModel.Properties.C09"] if THEOREMS else ["SodiumModel.Model.Secretstream"]
-RULE = ("random histories (depth 40 quick / 400 thorough) over {push(tag, len, ad), explicit rekey, genuine pull, forged pull "
+RULE = ("(a third of the pulls / a quarter of the pushes go through the optional-pointer call forms: m == NULL for an empty message, mlen_p / tag_p / outlen_p == NULL) "
+        "random histories (depth 40 quick / 400 thorough) over {push(tag, len, ad), explicit rekey, genuine pull, forged pull "
         "(replayed, skipped-ahead, swapped, truncated at every length for short chunks, single-bit flips, wrong ad, foreign stream)}, "
         "from initial counters 1 and 2^32-k (k<=4) set through the public state; sender and receiver state printed after every op; "
         "the generator asserts on the model that every genuine pull succeeds with the pushed message/tag and every forged pull fails")
@@ -29,6 +30,18 @@ def rb(rng, n):
 
 
 LENS = [0, 0, 1, 15, 16, 17, 31, 32, 47, 48, 63, 64, 65, 100, 127, 128, 129, 255, 256, 1023]
+
+
+def pull_line(rng, stats, slot, chunk, ad, genuine_empty=False):
+    """a pull op line; a third of the time through the optional-pointer call forms (mlen_p / tag_p NULL, and m NULL when the chunk carries
+    an empty message — the pointer an application holds for a zero-length output): verdict, message, tag and state must be the same"""
+    if rng.random() < 0.35 or (len(chunk) == 17 and rng.random() < 0.6):
+        fl = rng.choice([2, 4, 6])
+        if len(chunk) == 17:
+            fl = rng.choice([1, 1, 3, 5, 7])
+        stats["optional_pointer_pulls"] = stats.get("optional_pointer_pulls", 0) + 1
+        return "ss.pullx %d %s %s %d" % (slot, hexs(chunk), hexs(ad), fl), fl
+    return "ss.pull %d %s %s" % (slot, hexs(chunk), hexs(ad)), 0
 
 
 def history(ms, rng, depth, stats):
@@ -58,7 +71,11 @@ def history(ms, rng, depth, stats):
             tag = rng.choice([0, 0, 0, 1, 2, 3, 3, rng.randrange(256)])
             m = rb(rng, rng.choice(LENS))
             ad = rb(rng, rng.choice([0, 0, 1, 15, 16, 17, 40]))
-            r = ms.ask("ss.push 0 %d %s %s" % (tag, hexs(m), hexs(ad)))
+            if rng.random() < 0.25:
+                r = ms.ask("ss.pushx 0 %d %s %s %d" % (tag, hexs(m), hexs(ad), rng.choice([1, 3]) if not m else 2))
+                stats["optional_pointer_pushes"] = stats.get("optional_pointer_pushes", 0) + 1
+            else:
+                r = ms.ask("ss.push 0 %d %s %s" % (tag, hexs(m), hexs(ad)))
             chunk = bytes.fromhex(r.split(" ")[1])
             queue.append(("chunk", chunk, ad, m, tag))
             stats["pushes"] = stats.get("pushes", 0) + 1
@@ -71,10 +88,11 @@ def history(ms, rng, depth, stats):
             if it[0] == "rekey":
                 ms.ask("ss.rekey 1")
             else:
-                r = ms.ask("ss.pull 1 %s %s" % (hexs(it[1]), hexs(it[2])))
+                ln, fl = pull_line(rng, stats, 1, it[1], it[2])
+                r = ms.ask(ln)
                 expect(r, True, "genuine pull")
                 f = r.split(" ")
-                if f[3] != hexs(it[3]) or int(f[2]) != it[4]:
+                if f[3] != hexs(it[3]) or (f[2] != "x" and int(f[2]) != it[4]):
                     raise vcore.BrokenCheck("model returned a different message/tag than pushed")
                 consumed.append(it)
                 stats["genuine_pulls"] = stats.get("genuine_pulls", 0) + 1
@@ -108,7 +126,7 @@ def history(ms, rng, depth, stats):
                 r = ms.ask("ss.push 2 0 %s -" % hexs(rb(rng, rng.choice(LENS))))
                 forged = (bytes.fromhex(r.split(" ")[1]), b"")
             if forged is not None:
-                r = ms.ask("ss.pull 1 %s %s" % (hexs(forged[0]), hexs(forged[1])))
+                r = ms.ask(pull_line(rng, stats, 1, forged[0], forged[1])[0])
                 expect(r, False, "forged pull (%s)" % kind)
                 stats["forged_" + kind] = stats.get("forged_" + kind, 0) + 1
     # drain: everything still queued must be delivered in order
@@ -116,7 +134,7 @@ def history(ms, rng, depth, stats):
         if it[0] == "rekey":
             ms.ask("ss.rekey 1")
         else:
-            r = ms.ask("ss.pull 1 %s %s" % (hexs(it[1]), hexs(it[2])))
+            r = ms.ask(pull_line(rng, stats, 1, it[1], it[2])[0])
             expect(r, True, "genuine pull (drain)")
             stats["genuine_pulls"] = stats.get("genuine_pulls", 0) + 1
 
